@@ -4,6 +4,7 @@
 // output: STATUS code has before after approx diff   NSTATES n   START ok   CSEG steps whole minmax ctrl_inb reproduced all_valid # detail
 //         LAST goal gdist   END
 #include "planning_common.h"
+#include <deque>
 #include <ompl/control/SpaceInformation.h>
 #include <ompl/control/SimpleDirectedControlSampler.h>
 #include <ompl/control/spaces/RealVectorControlSpace.h>
@@ -50,6 +51,18 @@ public:
     const ob::StateSpace *sp = nullptr;
 };
 
+// a control sampler that hands out scripted controls and step counts (for SimpleDirectedControlSampler::getBestControl)
+struct ScriptControlSampler : public oc::ControlSampler
+{
+    ScriptControlSampler(const oc::ControlSpace *cs, std::shared_ptr<std::deque<double>> u, std::shared_ptr<std::deque<unsigned>> n)
+      : oc::ControlSampler(cs), us(std::move(u)), ns(std::move(n)) {}
+    std::shared_ptr<std::deque<double>> us; std::shared_ptr<std::deque<unsigned>> ns;
+    void sample(oc::Control *c) override
+    { double v = 0; if (!us->empty()) { v = us->front(); us->pop_front(); } c->as<oc::RealVectorControlSpace::ControlType>()->values[0] = v; }
+    unsigned int sampleStepCount(unsigned int, unsigned int) override
+    { unsigned v = 0; if (!ns->empty()) { v = ns->front(); ns->pop_front(); } return v; }
+};
+
 int main(int argc, char **argv)
 {
     ompl::msg::setLogLevel(ompl::msg::LOG_NONE);
@@ -71,6 +84,28 @@ int main(int argc, char **argv)
             std::vector<ob::State *> vec; unsigned n2 = si->propagateWhileValid(s, c, steps, vec, true);
             std::cout << "pwv " << pr << " | " << n1 << " " << r1 << " | " << n2; for (auto *x : vec) { std::cout << " " << std::lround(x->as<ob::RealVectorStateSpace::StateType>()->values[0]); sp->freeState(x); }
             std::cout << std::endl; sp->freeState(s); sp->freeState(r); cs->freeControl(c); return;
+        }
+        if (line.rfind("DCS ", 0) == 0)
+        {   // DCS <start> <target> <invalid values...> | u1 n1 u2 n2 ...: getBestControl with k = number of (control, steps) pairs on R^1, propagator x -> x + u
+            std::istringstream pin(line); std::string c0, tok; long start, target; pin >> c0 >> start >> target; std::set<long> bad;
+            while (pin >> tok && tok != "|") bad.insert(std::stol(tok));
+            auto us = std::make_shared<std::deque<double>>(); auto ns = std::make_shared<std::deque<unsigned>>(); double u; unsigned n;
+            while (pin >> u >> n) { us->push_back(u); ns->push_back(n); }
+            unsigned k = (unsigned)us->size();
+            auto sp = std::make_shared<ob::RealVectorStateSpace>(1); sp->setBounds(-1e6, 1e6);
+            auto cs = std::make_shared<oc::RealVectorControlSpace>(sp, 1); ob::RealVectorBounds cb1(1); cb1.setLow(-100); cb1.setHigh(100); cs->setBounds(cb1);
+            cs->setControlSamplerAllocator([us, ns](const oc::ControlSpace *c) { return std::make_shared<ScriptControlSampler>(c, us, ns); });
+            auto si = std::make_shared<oc::SpaceInformation>(sp, cs);
+            si->setStateValidityChecker([bad](const ob::State *s) { return bad.count(std::lround(s->as<ob::RealVectorStateSpace::StateType>()->values[0])) == 0; });
+            si->setStatePropagator([](const ob::State *s, const oc::Control *c, double, ob::State *r)
+                { r->as<ob::RealVectorStateSpace::StateType>()->values[0] = s->as<ob::RealVectorStateSpace::StateType>()->values[0] + c->as<oc::RealVectorControlSpace::ControlType>()->values[0]; });
+            si->setPropagationStepSize(0.1); si->setMinMaxControlDuration(1, 100); si->setup();
+            oc::SimpleDirectedControlSampler dcs(si.get(), k);
+            ob::State *s = sp->allocState(), *d = sp->allocState(); oc::Control *c = cs->allocControl();
+            s->as<ob::RealVectorStateSpace::StateType>()->values[0] = (double)start; d->as<ob::RealVectorStateSpace::StateType>()->values[0] = (double)target;
+            unsigned steps = dcs.sampleTo(c, s, d);
+            std::cout << "dcs " << std::lround(c->as<oc::RealVectorControlSpace::ControlType>()->values[0]) << " " << steps << " " << std::lround(d->as<ob::RealVectorStateSpace::StateType>()->values[0]) << std::endl;
+            sp->freeState(s); sp->freeState(d); cs->freeControl(c); return;
         }
         std::istringstream in(line); std::string cmd, pl, sys, envn; int q, mins, maxs; double stepsize, thr, secs; unsigned seed; unsigned long iters;
         if (!(in >> cmd >> pl >> sys >> envn >> q >> stepsize >> mins >> maxs >> thr >> seed >> iters >> secs) || cmd != "CRUN") return;
